@@ -58,7 +58,7 @@ func RunHandlers(e *Env) {
 	R.Rule = "seeded workloads of 1-4 clients (own manager = own connection) per server, n in 1..5, mixing handler scripts (plain, release early, release 100x, release from a helper goroutine, release concurrently from 4 goroutines, " +
 		"hold until gate, release early and reply late, release then run long) over all two-way and one-way methods; online monitor in the puppet handler: per connection the count of handlers entered and not yet released must be exactly 1 at entry " +
 		"(decremented immediately before the handler releases or returns, so a correct server cannot be flagged); directed sub-cases: a never-releasing handler delays only its own connection (a second client completes K calls meanwhile, the first client's next request has not entered), " +
-		"after the release the queued handler starts (hang rule), replies of released handlers reach the right call (token check); released handlers that outlive their client's connections (manager closed while they run, then they reply) while a second client keeps being served; distinct = case parameters; non-trivial = >=2 scripts or >=2 clients"
+		"after the release the queued handler starts (hang rule), replies of released handlers reach the right call (token check); released handlers that outlive their client's connections (manager closed while they run, then they reply) while a second client keeps being served; clients that leave (manager closed) while one of their handlers holds the connection with further requests already written behind it: no handler of that connection starts while the holder holds; distinct = case parameters; non-trivial = >=2 scripts or >=2 clients"
 	R.Assume("the monitor's decrement precedes the unlock and its increment follows the server's lock acquisition, hence no false alarm on a correct server")
 	rng := e.Rand(4)
 	ncase := e.Pick(400, 40000)
@@ -79,6 +79,15 @@ func RunHandlers(e *Env) {
 			break
 		}
 		runReleasedOutlivesClient(e, rep)
+	}
+	for rep := 0; rep < e.Pick(24, 400); rep++ {
+		if e.Of > 1 && rep%e.Of != e.Batch {
+			continue
+		}
+		if R.NumViolations() > 10 {
+			break
+		}
+		runClientLeavesWhileHeld(e, rep)
 	}
 }
 
